@@ -22,12 +22,13 @@ BOUNDS = {
     'thorough': dict(DEPTH=2, DEEP=4, DEEP_LEVELS=0, KINDS=['dict', 'lru1', 'lru2', 'evict', 'refuse-long', 'warm-parse', 'warm-eval']),
 }
 
+LONGLIST = '[' + ', '.join(str(i) for i in range(40)) + ']'
 SOURCES = ['1', ' 1', '1 ', '\n1', '1\n', '\f1', '1\f', '[1, 2]', '{"a": [1]}', '{"a": {"b": 1}}', 'x = [1]; x', 'f = v => [v]; f(1)',
            '1 +', 'u', 'map(l, v => v + k)', '[[1], {"c": [2]}]', 'x = {"a": {"b": [1]}}; x["a"]', 'l', 'push(l, 3); l',
            'r = []; push(r, [0]); r', 'k if k else [k]',
            'k\n-1', 'k -1', 'len(l)\n[2]', 'len(l) [2]', 'k == "a  b"', 'k == "a b"', '\n\nx = = 1', 'x = = 1', 'x = 1\nk', 'x = 1 k', ' [1,\n 2] ', '[1, 2]\n', 'len([1, 2 3', 'x = 10\ny = 2\nx * y', 'k(', '{"a": [1,\n2 3]}', 'fa(10)',
            '[]', '{}', 'k if False else []', 'acc = x => []; push(acc(0), 7); acc(0)', '"a  b" | len', '"a b" | len', '%l% | len', 'len("\t\t")', 'len("\t")',
-           '[[], {}]']
+           '[[], {}]', LONGLIST, 'pop(' + LONGLIST + ')', '{"t": [' + LONGLIST + ']}']
 WARM = ['1', '{"a": {"b": 1}}', 'map(l, v => v + k)', 'f = v => [v]; f(1)', '[[1], {"c": [2]}]']
 
 
@@ -270,14 +271,14 @@ def _src(act):
     return repr(act[1])[:22] if len(act) > 1 else ''
 
 
-DEEP_SOURCES = {'[]', '{}', 'k if False else []', '"a  b" | len', '"a b" | len', '[[], {}]', 'len([1, 2 3', 'x = 10\ny = 2\nx * y', 'k\n-1', 'k -1', '\n\nx = = 1', 'x = = 1', '1 +', ' 1', '{"a": {"b": 1}}', 'map(l, v => v + k)', 'f = v => [v]; f(1)', '[[1], {"c": [2]}]', '1', '\f1', 'x = {"a": {"b": [1]}}; x["a"]'}
+DEEP_SOURCES = {LONGLIST, 'pop(' + LONGLIST + ')', '[]', '{}', 'k if False else []', '"a  b" | len', '"a b" | len', '[[], {}]', 'len([1, 2 3', 'x = 10\ny = 2\nx * y', 'k\n-1', 'k -1', '\n\nx = = 1', 'x = = 1', '1 +', ' 1', '{"a": {"b": 1}}', 'map(l, v => v + k)', 'f = v => [v]; f(1)', '[[1], {"c": [2]}]', '1', '\f1', 'x = {"a": {"b": [1]}}; x["a"]'}
 
 
 def deep_actions():
     return [a for a in actions() if a[0] in ('mutate-last', 'set-k', 'eval-ast') or (a[0] == 'eval' and a[1] in DEEP_SOURCES and a[3] in (None, 9))]
 
 
-CORE_SOURCES = {'[]', '{}', 'k if False else []', '"a  b" | len', '"a b" | len', '{"a": {"b": 1}}', 'map(l, v => v + k)', 'len([1, 2 3', 'x = 10\ny = 2\nx * y', '\f1', '1', 'k\n-1', 'k -1'}
+CORE_SOURCES = {LONGLIST, 'pop(' + LONGLIST + ')', '[]', '{}', 'k if False else []', '"a  b" | len', '"a b" | len', '{"a": {"b": 1}}', 'map(l, v => v + k)', 'len([1, 2 3', 'x = 10\ny = 2\nx * y', '\f1', '1', 'k\n-1', 'k -1'}
 
 
 def core_actions():
